@@ -21,6 +21,7 @@ func (n *RawNode) Unicast(ctx context.Context, d CallData, opts ...CallOption) {
 		vGate("CallEnqWait", n.id, md.MessageID)
 		n.channel.enqueue(req, nil, false)
 		vEmit("CallEnq", n.id, md.MessageID)
+		vEmit("CallIssued", 0, md.MessageID, "expected", 1)
 		vEmit("CallEnd", 0, md.MessageID, "out", "nowait")
 		return // don't wait for message to be sent
 	}
